@@ -63,6 +63,31 @@ TE.TIES['ling'] = {
                                 ("def parse_language(s):\n", "def parse_language(s):\n    '''locale name -> Language'''\n")),
   }}
 
+def seeded3(name):
+    """a seeded patch made against an older tree: plain apply, else a three-way apply"""
+    def f(repo):
+        patch = os.path.join(TE.HERE, 'seeded', name, 'patch.diff')
+        rc, out = TE.sh(['git', 'apply', patch], cwd=repo)
+        if rc != 0:
+            rc, out = TE.sh(['git', 'apply', '--3way', patch], cwd=repo)
+        if rc != 0: raise SystemExit(f'seeded/{name} does not apply: {out[-200:]}')
+    return f
+
+CKL = 'lib/check/__init__.py'
+TE.TIES['chklang'] = {
+  'translators': ['linglang', 'chklang'], 'module': 'I18n.Props.C19Tie', 'tests': ['tests/test_ling.py'],
+  'edits': {
+   'seeded/C19-d': seeded3('C19-d'), 'seeded/C19-c': seeded3('C19-c'), 'seeded/X1-a': seeded3('X1-a'),
+   'lc-remove-encoding-dropped': ed(CKL, ("                    language.fix_codes()\n                    language.remove_encoding()\n", "                    language.fix_codes()\n")),
+   'basename-quality-one': ed(CKL, ("                language_source = 'pathname'\n                language_source_quality = 0", "                language_source = 'pathname'\n                language_source_quality = 1")),
+   'lc-last-component': ed(CKL, ("                language = path_components[i - 1]", "                language = path_components[i]")),
+   # behaviour-preserving
+   'bp-rename-locals': ed(CKL, ("            path_components = os.path.normpath(self.path).split('/')\n            try:\n                i = path_components.index('LC_MESSAGES')\n            except ValueError:\n                i = 0\n            if i > 0:\n                language = path_components[i - 1]",
+                                "            parts = os.path.normpath(self.path).split('/')\n            try:\n                i = parts.index('LC_MESSAGES')\n            except ValueError:\n                i = 0\n            if i > 0:\n                language = parts[i - 1]"),
+                           ("            del path_components, i", "            del parts, i")),
+   'bp-comments': ed(CKL, ("        language = self.options.language\n", "        # the -l option first:\n        language = self.options.language\n")),
+  }}
+
 GT = 'lib/gettext.py'
 ZONE = ("    if (zhour is not None) and (zminute is not None):\n        zone = zhour + zminute\n    elif zabbr is not None:\n        try:\n            [zone] = _timezones[zabbr]\n"
         "        except ValueError:\n            raise DateSyntaxError('ambiguous timezone abbreviation: ' + zabbr)\n    elif tz_hint is not None:\n        zone = tz_hint\n    else:\n        raise DateSyntaxError\n")
